@@ -95,47 +95,54 @@ theorem FRun.specApply_eq {d : Disk} {P : List Seg} {t : Seg} {f : File} (h : FR
 
 /-! ### `runActs` on short lists -/
 
-theorem runActs_nil (d : Disk) (wf : WriteFail) (k : Option Nat) : runActs d wf [] k = (d, none, k) := by
+theorem runActs_nil (d : Disk) (pl : Plan) : runActs d [] pl = (d, none, pl) := by
   unfold runActs; rfl
 
-theorem runActs_none_cons (d : Disk) (wf : WriteFail) (a : Act) (as : List Act) :
-    runActs d wf (a :: as) none = runActs (applyF d a) wf as none := by
+theorem runActs_cons_nil (d : Disk) (a : Act) (as : List Act) :
+    runActs d (a :: as) [] = runActs (applyF d a) as [] := by
   rw [runActs]
 
-theorem runActs_succ_cons (d : Disk) (wf : WriteFail) (a : Act) (as : List Act) (n : Nat) :
-    runActs d wf (a :: as) (some (n + 1)) = runActs (applyF d a) wf as (some n) := by
+theorem runActs_cons_none (d : Disk) (a : Act) (as : List Act) (pl : Plan) :
+    runActs d (a :: as) (none :: pl) = runActs (applyF d a) as pl := by
   rw [runActs]
 
-theorem runActs_zero_delete (d : Disk) (wf : WriteFail) (j : Nat) (as : List Act) :
-    runActs d wf (.delete j :: as) (some 0) = runActs d wf as none := by
+theorem runActs_fail_delete (d : Disk) (wf : WriteFail) (j : Nat) (as : List Act) (pl : Plan) :
+    runActs d (.delete j :: as) (some wf :: pl) = runActs d as pl := by
   rw [runActs]
 
-theorem runActs_zero_commit (d : Disk) (wf : WriteFail) (m : Meta) (as : List Act) :
-    runActs d wf (.commit m :: as) (some 0) = (d, some (.commit m), none) := by
+theorem runActs_fail_commit (d : Disk) (wf : WriteFail) (m : Meta) (as : List Act) (pl : Plan) :
+    runActs d (.commit m :: as) (some wf :: pl) = (d, some (.commit m), pl) := by
   simp [runActs, failEffect]
 
-theorem runActs_zero_create (d : Disk) (wf : WriteFail) (i b : Nat) (as : List Act) :
-    runActs d wf (.create i b :: as) (some 0) = (d, some (.create i b), none) := by
+theorem runActs_fail_create (d : Disk) (wf : WriteFail) (i b : Nat) (as : List Act) (pl : Plan) :
+    runActs d (.create i b :: as) (some wf :: pl) = (d, some (.create i b), pl) := by
   simp [runActs, failEffect]
 
-theorem runActs_zero_fsync (d : Disk) (wf : WriteFail) (i : Nat) (as : List Act) :
-    runActs d wf (.fsync i :: as) (some 0) = (d, some (.fsync i), none) := by
+theorem runActs_fail_fsync (d : Disk) (wf : WriteFail) (i : Nat) (as : List Act) (pl : Plan) :
+    runActs d (.fsync i :: as) (some wf :: pl) = (d, some (.fsync i), pl) := by
   simp [runActs, failEffect]
 
-theorem runActs_zero_write (d : Disk) (wf : WriteFail) (i : Nat) (es : List Entry) (sl : Bool) (as : List Act) :
-    runActs d wf (.write i es sl :: as) (some 0) = (failEffect d wf (.write i es sl), some (.write i es sl), none) := by
+theorem runActs_fail_write (d : Disk) (wf : WriteFail) (i : Nat) (es : List Entry) (sl : Bool) (as : List Act)
+    (pl : Plan) :
+    runActs d (.write i es sl :: as) (some wf :: pl) = (failEffect d wf (.write i es sl), some (.write i es sl), pl) := by
   simp [runActs]
 
+/-- one action that goes through, whatever the plan says about the rest -/
+theorem runActs_ok_cons (d : Disk) (a : Act) (as : List Act) (pl : Plan) (h : pl.head? ≠ some none → pl = []) :
+    ∃ pl', runActs d (a :: as) pl = runActs (applyF d a) as pl' := by
+  match pl with
+  | [] => exact ⟨[], runActs_cons_nil d a as⟩
+  | none :: pl => exact ⟨pl, runActs_cons_none d a as pl⟩
+  | some wf :: pl => exact absurd (h (by simp)) (by simp)
+
 /-- the deferred deletion of StoreLogs: nothing, or one file; a failure is ignored -/
-theorem runActs_del (d : Disk) (wf : WriteFail) (del : List Act) (j : Nat) (hdel : del = [] ∨ del = [.delete j])
-    (k : Option Nat) : ∃ d' k', runActs d wf del k = (d', none, k') ∧ (d' = d ∨ d' = d.apply (.delete j)) := by
+theorem runActs_del (d : Disk) (del : List Act) (j : Nat) (hdel : del = [] ∨ del = [.delete j])
+    (pl : Plan) : ∃ d' pl', runActs d del pl = (d', none, pl') ∧ (d' = d ∨ d' = d.apply (.delete j)) := by
   rcases hdel with rfl | rfl
-  · exact ⟨d, k, runActs_nil d wf k, Or.inl rfl⟩
-  · cases k with
-    | none => exact ⟨d.apply (.delete j), none, by rw [runActs_none_cons, runActs_nil]; rfl, Or.inr rfl⟩
-    | some n =>
-      cases n with
-      | zero => exact ⟨d, none, by rw [runActs_zero_delete, runActs_nil], Or.inl rfl⟩
-      | succ n => exact ⟨d.apply (.delete j), some n, by rw [runActs_succ_cons, runActs_nil]; rfl, Or.inr rfl⟩
+  · exact ⟨d, pl, runActs_nil d pl, Or.inl rfl⟩
+  · match pl with
+    | [] => exact ⟨d.apply (.delete j), [], by rw [runActs_cons_nil, runActs_nil]; rfl, Or.inr rfl⟩
+    | none :: pl => exact ⟨d.apply (.delete j), pl, by rw [runActs_cons_none, runActs_nil]; rfl, Or.inr rfl⟩
+    | some wf :: pl => exact ⟨d, pl, by rw [runActs_fail_delete, runActs_nil], Or.inl rfl⟩
 
 end RaftWal.Fault.A
